@@ -1,26 +1,38 @@
 (* C05 — property theorems only. *)
-From C05 Require Import Model Spec Corr Proofs ProofsRound ProofsBits ProofsCmp ProofsAll.
+From C05 Require Import Model Spec Corr Proofs ProofsRound ProofsBits ProofsCmp ProofsDiv ProofsGcd ProofsArith ProofsAll.
 Open Scope Z_scope.
 
 (* (1) Inside the guard the code model returns the mathematically exact result in canonical form and
-   leaves its operands unchanged, for EVERY operation the guard admits:
-   + - * abs 1+ 1- on fixnums whose exact intermediate results stay in 64 bits;
+   leaves its operands unchanged, for EVERY modelled operation:
+   + - * on fixnums and bignum objects in any order and number: the result is a fixnum as long as every
+   prefix result fits in 64 bits, and from the first one that does not (or the first bignum operand) the
+   code computes with math/big (no wrap-around since repo_fixes/C05-9..11); unary - ; abs, 1+, 1- on fixnums
+   (most-negative-fixnum, the extremes included) and on bignums;
+   / on fixnums: the reciprocal (except of -1) and every chain of divisions, a zero divisor signalling
+   division-by-zero; the quotient is the exact rational in lowest terms, a fixnum when it is an integer;
    floor (positive divisor, or exact), ceiling, truncate, round (half to even; quotient and the remainder
-   number - quotient * divisor), mod, rem on fixnums;
+   number - quotient * divisor), rem on fixnums incl. a zero divisor (division-by-zero) and
+   most-negative-fixnum / -1 (the bignum 2^63 and 0); mod on fixnums with a non-zero divisor;
+   gcd and lcm of any number of integers of any magnitude in any representation (fixnum loop, math/big
+   path): the fold of Z.gcd from 0 / Z.lcm from 1 over the operands, as a fixnum when it fits;
    < <= > >= and = on chains of any length over fixnums, bignums and ratios in canonical form that do not
-   pair a bignum beyond 64 bits with a ratio in adjacent positions (the result is the mathematical chain
-   a1 R a2 /\ a2 R a3 /\ ... on the exact values);
-   logand logior logxor (any number of integer operands, 0 included) and lognot, where the exact result
-   is a fixnum computed by the fixnum loop or a bignum that does not fit in 64 bits.
+   pair a bignum beyond 64 bits with a ratio in adjacent positions;
+   logand logior logxor (any number of integer operands, 0 included) and lognot.
    FULL STATEMENT (false of the faithful model, see (4)):  forall o args, denotes args <> None ->
      s_out o args = Some (m_op o args).
-   NOT COVERED: / gcd lcm (in_domain is false for them: no theorem, correspondence and S as a judge on
-   every run only); operands outside the guard, where either (4) refutes the statement or (2) proves the
-   weaker value-level statement. *)
-Theorem C05_exact_on_domain_partial : forall o args,
+   WHAT THE GUARD STILL EXCLUDES, precisely: (a) results that slip does not demote: a + - * accumulator that
+   became a bignum object and whose final value fits in 64 bits again, 1+ 1- abs - of a bignum object
+   with such a result, the bignum branch of the bitwise operations and of round with most-negative-fixnum
+   as an operand, (/ -1) (the ratio -1/1) and a chain of three or more / operands starting with
+   most-negative-fixnum; ratio operands of + - * 1+ 1- abs and bignum / ratio operands of / are covered
+   by (2) and (7) at the level of values; (b) floor of fixnums by a negative divisor that does not divide
+   (wrong adjustment, asserted by slip's tests); (c) mod by zero (arithmetic-error instead of
+   division-by-zero, asserted by slip's tests); (d) a bignum beyond 64 bits paired with a ratio (float path).
+   Each is a known finding with a witness in (4) or a case of the value-level theorems. *)
+Theorem C05_exact_on_domain : forall o args,
   in_domain o args = true -> s_out o args = Some (m_op o args).
 Proof. exact exact_on_domain. Qed.
-Print Assumptions C05_exact_on_domain_partial.
+Print Assumptions C05_exact_on_domain.
 
 (* (2) On the value domain - floor ceiling truncate round with one or two operands of which at least one
    is a bignum object or a ratio (any representation the implementation can hold; divisor not zero; no
@@ -29,14 +41,22 @@ Print Assumptions C05_exact_on_domain_partial.
    truncation / round-half-even of the exact rational quotient, the remainder has the value
    number - quotient * divisor, mod / rem / the bitwise results have the mathematical value. The
    representation is not canonical there (results are always bignum / ratio objects: known findings),
-   and the operands are untouched except by round (known finding: absolute values in place). *)
+   and the operands are untouched. *)
 Theorem C05_value_exact_on_value_domain : forall o args,
   value_domain o args = true ->
   exists so, s_out o args = Some so /\
     res_same_value (o_res so) (o_res (m_op o args)) = true /\
-    (o <> ORound Round -> o_args (m_op o args) = args).
+    o_args (m_op o args) = args.
 Proof. exact value_exact. Qed.
 Print Assumptions C05_value_exact_on_value_domain.
+
+(* (2b) "never alter their operands", for EVERY modelled operation and EVERY operand list (no guard): the
+   operands after the call are the operands before it. (True of the model since the repairs
+   repo_fixes/C05-1..5: -, /, 1+, 1-, round allocate their math/big results instead of writing them into an
+   operand; the correspondence run compares the operand variables re-read after every call.) *)
+Theorem C05_operands_never_altered : forall o args, o_args (m_op o args) = args.
+Proof. exact operands_untouched. Qed.
+Print Assumptions C05_operands_never_altered.
 
 (* (3) exactly one of <, =, > holds, and it is the one of the exact values *)
 Theorem C05_trichotomy : forall a b, canonical a = true -> canonical b = true -> inexact_pair a b = false ->
@@ -45,8 +65,8 @@ Theorem C05_trichotomy : forall a b, canonical a = true -> canonical b = true ->
 Proof. exact trichotomy. Qed.
 Print Assumptions C05_trichotomy.
 
-(* (4) outside the guard the faithful model violates the specification: 20 kernel-checked witnesses,
-   one per guard clause / unmodelled clause; each is a known finding replayed on the implementation *)
+(* (4) outside the guard the faithful model violates the specification: 12 kernel-checked witnesses,
+   one per remaining guard clause; each is a known finding replayed on the implementation *)
 Theorem C05_outside_guard_refuted :
   forallb (fun w => refuted (fst w) (snd w)) refutation_witnesses = true /\
   forallb (fun w => negb (in_domain (fst w) (snd w))) refutation_witnesses = true.
@@ -75,3 +95,58 @@ Theorem C05_domains_nonvacuous :
   value_domain ORem [VBig (-50000000000000000000); VBig 20000000000000000000] = true.
 Proof. exact guard_examples_2. Qed.
 Print Assumptions C05_domains_nonvacuous.
+
+(* (7) / on ANY operands the implementation can hold (fixnums, bignum objects of any value, ratios with
+   any positive denominator; two or more of them): unless some step pairs a bignum beyond 64 bits with a
+   ratio (the float path, where the model declines to predict: RVal VInexact), the result has the exact
+   rational value - num1 * den2 = num2 * den1 against the specification's canonical quotient - and is in
+   lowest terms with a positive denominator (what big.Rat keeps), or is division-by-zero exactly when a
+   divisor is zero.  (Not demoted: an integer-valued ratio stays n/1, a small bignum a bignum: findings.) *)
+Theorem C05_div_value_exact : forall args,
+  forallb wf args = true -> 2 <= Z.of_nat (length args) ->
+  exact_res (o_res (m_op ODiv args)) = true ->
+  exists so, s_out ODiv args = Some so /\
+    res_same_value (o_res so) (o_res (m_op ODiv args)) = true /\
+    lowest_res (o_res (m_op ODiv args)) = true /\
+    (o_res so = RCond CDivZero <-> o_res (m_op ODiv args) = RCond CDivZero).
+Proof. exact div_value_exact. Qed.
+Print Assumptions C05_div_value_exact.
+
+(* (8) gcd and lcm of integers in any representation equal Z.gcd / Z.lcm folded over the ABSOLUTE VALUES
+   of the operands, are nonnegative, lcm is 0 as soon as an operand is 0, operands untouched *)
+Theorem C05_gcd_lcm_values : forall args, all_int args = true ->
+  let g := fold_left Z.gcd (map Z.abs (fixes args)) 0 in
+  let m := fold_left Z.lcm (map Z.abs (fixes args)) 1 in
+  o_res (m_op OGcd args) = RVal (canon_int g) /\ 0 <= g /\
+  o_res (m_op OLcm args) = RVal (canon_int m) /\ 0 <= m /\
+  (In 0 (fixes args) -> o_res (m_op OLcm args) = RVal (VFix 0)) /\
+  o_args (m_op OGcd args) = args /\ o_args (m_op OLcm args) = args.
+Proof. exact gcd_lcm_values. Qed.
+Print Assumptions C05_gcd_lcm_values.
+
+(* (9) the widened guard is inhabited by the repaired cases *)
+Theorem C05_repaired_cases_in_guard :
+  in_domain OAdd [VFix 4611686018427387904; VFix 4611686018427387904] = true /\
+  in_domain OMul [VFix 4294967296; VFix 4294967296] = true /\
+  in_domain OSub [VBig B; VFix 1] = true /\ in_domain OSub [VFix (-9223372036854775808)] = true /\
+  in_domain OInc [VFix 9223372036854775807] = true /\ in_domain OAbs [VFix (-9223372036854775808)] = true /\
+  in_domain (ORound Truncate) [VFix (-9223372036854775808); VFix (-1)] = true /\
+  in_domain ORem [VFix 5; VFix 0] = true /\ in_domain (ORound Round) [VFix 5; VFix 0] = true /\
+  in_domain ODiv [VFix 6; VFix 4; VFix (-3)] = true /\ in_domain ODiv [VFix (-9223372036854775808); VFix (-1)] = true /\
+  in_domain OGcd [VBig B; VFix 10; VFix (-9223372036854775808)] = true /\
+  in_domain OLcm [VFix 4611686018427387904; VFix 3; VBig (- B)] = true.
+Proof. exact repaired_examples. Qed.
+Print Assumptions C05_repaired_cases_in_guard.
+
+(* (10) + - * abs 1+ 1- on ANY operands math/big can hold (fixnums, bignum objects of any value, ratios in
+   lowest terms incl. denominator 1; any number of operands for the first three): unless some step pairs a bignum
+   beyond 64 bits with a ratio (float path), the result has the exact rational value and is in lowest terms
+   with a positive denominator.  Together with (1), (2), (7), (8): every modelled arithmetic operation
+   returns exact values on all operands of the exact types whenever it stays inside them. *)
+Theorem C05_arith_value_exact : forall o args,
+  arith_value_domain o args (o_res (m_op o args)) = true ->
+  exists so, s_out o args = Some so /\
+    res_same_value (o_res so) (o_res (m_op o args)) = true /\
+    lowest_res (o_res (m_op o args)) = true.
+Proof. exact arith_value_exact. Qed.
+Print Assumptions C05_arith_value_exact.
